@@ -133,3 +133,26 @@ Definition str_bytes (s : String.string) : bytes := String.list_byte_of_string s
 Fixpoint repeat_bytes_nat (s : bytes) (n : nat) : bytes :=
   match n with O => [] | S k => s ++ repeat_bytes_nat s k end.
 Definition repeat_bytes (s : bytes) (n : N) : bytes := repeat_bytes_nat s (N.to_nat n).
+
+(* ---- for src/server.rs / src/responder.rs ---- *)
+Require Import RV.Model.Server.
+
+(* a `for` loop that updates outer variables and may return a value early *)
+Fixpoint loop_sr {S A R} (f : S -> A -> res (S * option R)) (l : list A) (s : S) : res (S * option R) :=
+  match l with
+  | [] => Ok (s, None)
+  | x :: r =>
+      obind (f s x) (fun '(s', o) =>
+      match o with Some v => Ok (s', Some v) | None => loop_sr f r s' end)
+  end.
+
+(* the non-blocking UDP socket as the queue of datagrams waiting in it: recv_from takes the oldest
+   one into the front of the receive buffer, or reports WouldBlock when nothing is waiting. Other
+   I/O errors are not produced by this environment. *)
+Inductive iokind := WouldBlock | OtherIo.
+Definition sock_recv (q : list dgram) (buf : bytes)
+  : outcome iokind (N * addr) * (list dgram * bytes) :=
+  match q with
+  | [] => (Err WouldBlock, (q, buf))
+  | (a, d) :: r => (Ok (lenN d, a), (r, d ++ skipn (length d) buf))
+  end.
